@@ -23,6 +23,7 @@ RULE = ("case = random family + type T (often a dataclass, plain or mixin, with 
 ASSUMPTIONS = ["agreement is relational: a defect shared by all entry points (e.g. finding F20) is invisible here by design",
                "exception classes may differ between entry points (InvalidFieldValue vs ValueError); only raise-vs-return and values are compared"]
 BUDGET_S = {"quick": 150, "thorough": 1200}
+CASES_PER_PROCESS = {"quick": 400, "thorough": 600}
 MIN_EVENTS = {"quick": {"evaluations": 10000, "encode_all_agree": 5000, "decode_all_agree": 5000},
               "thorough": {"evaluations": 300000, "encode_all_agree": 150000, "decode_all_agree": 150000}}
 
